@@ -1297,13 +1297,17 @@ impl GRLParser {
 
         // String literal
         if trimmed.len() >= 2 {
-            let unquoted = &trimmed[1..trimmed.len() - 1];
-            if (trimmed.starts_with('"') && trimmed.ends_with('"') && !unquoted.contains('"'))
-                || (trimmed.starts_with('\'')
-                    && trimmed.ends_with('\'')
-                    && !unquoted.contains('\''))
-            {
-                return Ok(Value::String(unquoted.to_string()));
+            // Look at the quotes first: slicing off the first and last byte is only valid
+            // once they are known to be (single-byte) quote characters.
+            let double_quoted = trimmed.starts_with('"') && trimmed.ends_with('"');
+            let single_quoted = trimmed.starts_with('\'') && trimmed.ends_with('\'');
+            if double_quoted || single_quoted {
+                let unquoted = &trimmed[1..trimmed.len() - 1];
+                if (double_quoted && !unquoted.contains('"'))
+                    || (single_quoted && !unquoted.contains('\''))
+                {
+                    return Ok(Value::String(unquoted.to_string()));
+                }
             }
         }
 
